@@ -52,6 +52,7 @@ class Stub:
 
 
 class C17(Check):
+    SPIN_READS = None      # one task replays thousands of histories without ever blocking
     ID = 'C17'
     LEVEL = 'fault_enumeration'
     TIERS = {'quick': {'runs': 250, 'wall': 80}, 'thorough': {'runs': 12000, 'wall': 800}}
@@ -93,7 +94,8 @@ class C17(Check):
             if kind in ('set', 'assign'):
                 p = rng.choice(params)
                 op['p'] = p['name']
-                op['v'] = dtgen.valid_wire(rng, p['di'])
+                # (strings may contain lone surrogates: what surrogateescape decoding and JSON escapes give)
+                op['v'] = dtgen.valid_wire(rng, p['di'], surrogates=True)
             ops.append(op)
         ops.append({'kind': 'save'})
         shape = {'spec': {'params': params, 'plain': plain}, 'nflip': 6 if tier == 'quick' else 40,
